@@ -33,6 +33,21 @@ Fixpoint nodir (n : node) : bool :=
 Definition ofrag (f : node -> bool) (o : option node) : bool :=
   match o with Some n => f n | None => true end.
 
+(* the wider fragment of the idempotence law: a mapping may also carry "$patch: replace" or "$patch: merge" *)
+Definition dirv (kvs : list (string * node)) : bool :=
+  match find_field smp_key kvs with
+  | None => true
+  | Some x => String.eqb (node_value x) "replace" || String.eqb (node_value x) "merge"
+  end.
+Fixpoint dirok (n : node) : bool :=
+  match n with
+  | Map kvs => is_delete kvs ||
+               (dirv kvs &&
+                (fix go (l : list (string * node)) : bool :=
+                   match l with [] => true | kv :: t => dirok (snd kv) && go t end) kvs)
+  | _ => true
+  end.
+
 Lemma nodup_keys_NoDup l : nodup_keys l = true -> NoDup l.
 Proof.
   induction l as [|x t IH]; cbn; [constructor|].
@@ -65,6 +80,96 @@ Qed.
 Lemma ofrag_field (f : node -> bool) k kvs :
   (forall k v, find_field k kvs = Some v -> f v = true) -> ofrag f (find_field k kvs) = true.
 Proof. intros H. destruct (find_field k kvs) eqn:F; cbn; eauto. Qed.
+
+(* ---- "$patch: replace" / "$patch: merge": the mapping after elision ---- *)
+Lemma find_field_In k (kvs : list (string * node)) v : find_field k kvs = Some v -> In (k, v) kvs.
+Proof.
+  induction kvs as [|[k0 v0] t IH]; cbn; [discriminate|].
+  destruct (String.eqb k0 k) eqn:E; intros H.
+  - inv H. apply String.eqb_eq in E. subst. left; reflexivity.
+  - right; auto.
+Qed.
+
+Lemma in_remove_first e k (kvs : list (string * node)) : In e (remove_first k kvs) -> In e kvs.
+Proof.
+  induction kvs as [|[k0 v0] t IH]; cbn; auto.
+  destruct (String.eqb k0 k); cbn; intros H; auto. destruct H; auto.
+Qed.
+
+Lemma nodup_remove_first k (kvs : list (string * node)) : NoDup (keys kvs) -> NoDup (keys (remove_first k kvs)).
+Proof.
+  induction kvs as [|[k0 v0] t IH]; cbn; auto. intros H. inversion H as [|? ? Hn Hd]; subst.
+  destruct (String.eqb k0 k); auto. cbn. constructor; auto.
+  intros Hi. apply Hn. unfold keys in *. apply in_map_iff in Hi. destruct Hi as [e [E Hi]].
+  apply in_map_iff. exists e. split; auto. eapply in_remove_first; eauto.
+Qed.
+
+Lemma find_remove_first_nodup k (kvs : list (string * node)) :
+  NoDup (keys kvs) -> find_field k (remove_first k kvs) = None.
+Proof.
+  induction kvs as [|[k0 v0] t IH]; cbn; auto. intros H. inversion H as [|? ? Hn Hd]; subst.
+  destruct (String.eqb k0 k) eqn:E.
+  - apply String.eqb_eq in E. subst. apply find_field_none_iff. exact Hn.
+  - cbn. rewrite E. auto.
+Qed.
+
+Lemma wfk_in kvs : wfk (Map kvs) = true ->
+  nodupk kvs /\ forall k v, In (k, v) kvs -> wfk v = true.
+Proof.
+  cbn [wfk]. intros H. apply Bool.andb_true_iff in H. destruct H as [H1 H2].
+  split; [apply nodup_keys_NoDup; auto|].
+  clear H1. induction kvs as [|[k0 v0] t IH]; cbn; intros k v F; [contradiction|].
+  apply Bool.andb_true_iff in H2. destruct H2 as [Ha Hb].
+  destruct F as [F|F]; [inv F; auto|eauto].
+Qed.
+
+Lemma dirok_in kvs : dirok (Map kvs) = true -> is_delete kvs = false ->
+  dirv kvs = true /\ forall k v, In (k, v) kvs -> dirok v = true.
+Proof.
+  cbn [dirok]. intros H Hd. rewrite Hd in H. cbn [orb] in H.
+  apply Bool.andb_true_iff in H. destruct H as [H1 H2]. split; auto.
+  clear H1 Hd. induction kvs as [|[k0 v0] t IH]; cbn; intros k v F; [contradiction|].
+  apply Bool.andb_true_iff in H2. destruct H2 as [Ha Hb].
+  destruct F as [F|F]; [inv F; auto|eauto].
+Qed.
+
+(* a mapping of the fragment that is not "$patch: delete": its directive and its elided form *)
+Lemma dir_cases pk :
+  wfk (Map pk) = true -> dirok (Map pk) = true -> is_delete pk = false ->
+  exists ps pk',
+    determine_smp (Some (Map pk)) = Ok (ps, Some (Map pk')) /\ (ps = SmpMerge \/ ps = SmpReplace) /\
+    find_field smp_key pk' = None /\ nodupk pk' /\
+    (forall k, ofrag wfk (find_field k pk') = true /\ ofrag dirok (find_field k pk') = true).
+Proof.
+  intros Hw Hd Hdel. destruct (wfk_in _ Hw) as [Hnd Hwc]. destruct (dirok_in _ Hd Hdel) as [Hv Hdc].
+  unfold dirv in Hv. unfold is_delete in Hdel. cbn [determine_smp].
+  destruct (find_field smp_key pk) as [x|] eqn:F.
+  - exists (if String.eqb (node_value x) "replace" then SmpReplace else SmpMerge), (remove_first smp_key pk).
+    split; [|split; [|split; [|split]]].
+    + unfold smp_of_value. rewrite Hdel.
+      destruct (String.eqb (node_value x) "replace") eqn:E1; [reflexivity|].
+      cbn [orb] in Hv. rewrite Hv. reflexivity.
+    + destruct (String.eqb (node_value x) "replace"); auto.
+    + apply find_remove_first_nodup; auto.
+    + apply nodup_remove_first; auto.
+    + intros k. destruct (find_field k (remove_first smp_key pk)) eqn:Fk; cbn [ofrag]; auto.
+      apply find_field_In in Fk. apply in_remove_first in Fk. split; eauto.
+  - exists SmpMerge, pk. split; [reflexivity|]. split; auto. split; auto. split; auto.
+    intros k. destruct (find_field k pk) eqn:Fk; cbn [ofrag]; auto.
+    apply find_field_In in Fk. split; eauto.
+Qed.
+
+Lemma nodir_dirok n : nodir n = true -> dirok n = true.
+Proof.
+  induction n as [t s x|kvs IH|es] using node_ind'; auto.
+  cbn [nodir dirok]. destruct (is_delete kvs); cbn [orb]; auto.
+  intros H. apply Bool.andb_true_iff in H. destruct H as [H1 H2]. apply Bool.andb_true_iff. split.
+  - unfold dirv. apply Bool.negb_true_iff in H1. rewrite find_in_keys in H1.
+    destruct (find_field smp_key kvs); [discriminate|reflexivity].
+  - clear H1. induction kvs as [|[k0 v0] t IHt]; cbn; auto.
+    apply Bool.andb_true_iff in H2. destruct H2 as [Ha Hb]. inversion IH; subst.
+    apply Bool.andb_true_iff. split; auto.
+Qed.
 
 Lemma quote11_idem nonstr v : quote11 nonstr (quote11 nonstr v) = quote11 nonstr v.
 Proof.
@@ -133,6 +238,92 @@ Section Idem.
     cbn [first_kind o_null is_null kind_of all_valid forallb kind_eqb orb andb].
     unfold walk_map. cbn [v_map merger]. unfold m2_visit_map.
     cbn [dest_of origin_of o_null is_null tagged_null determine_smp]. rewrite Hp. cbn. reflexivity.
+  Qed.
+
+  (* ---- the schema plays no part on this fragment ---- *)
+  Lemma walk_fields_sc (rec : @rec_t Sc) sc1 sc2 alias srcs :
+    (forall s1 s2 a ss, rec s1 a ss = rec s2 a ss) ->
+    forall names d, walk_fields sch nonstr rec sc1 alias srcs names d = walk_fields sch nonstr rec sc2 alias srcs names d.
+  Proof.
+    intros Hr. induction names as [|key rest IH]; intros d; cbn [walk_fields]; auto.
+    rewrite (Hr (child_schema sch sc1 key) (child_schema sch sc2 key)).
+    destruct (rec _ _ _) as [r| | |]; cbn [bind]; auto.
+    destruct (set_field_w nonstr key r d) as [d'| | |]; cbn [bind]; auto.
+  Qed.
+
+  Lemma walk_sc f : forall sc1 sc2 alias srcs, W f sc1 alias srcs = W f sc2 alias srcs.
+  Proof.
+    induction f as [|f IH]; intros sc1 sc2 alias srcs; [reflexivity|].
+    cbn [walk].
+    assert (Hm : forall s1 s2, walk_map sch nonstr merger (W f) s1 alias srcs = walk_map sch nonstr merger (W f) s2 alias srcs).
+    { intros s1 s2. unfold walk_map. destruct (v_map merger srcs) as [vr| | |]; cbn [bind]; auto.
+      destruct (resolve alias (sync_from_alias alias (fst vr)) (snd vr)) as [[[[d0 keep] inpl] alias']|]; auto.
+      rewrite (walk_fields_sc (W f) s1 s2) by (intros; apply IH). reflexivity. }
+    destruct (first_kind srcs) as [[| |]|]; auto.
+    - destruct (all_valid KMap srcs); auto.
+    - destruct (all_valid KSeq srcs); auto. rewrite !(not_assoc sch opts Hatomic). reflexivity.
+  Qed.
+
+  (* ---- one mapping level with a directive: [pk'] is the patch mapping after elision ---- *)
+  Lemma dlevel_merge f sc tk pk pk' :
+    determine_smp (Some (Map pk)) = Ok (SmpMerge, Some (Map pk')) ->
+    W (S f) sc None [Some (Map tk); Some (Map pk)] =
+    do d <- walk_fields sch nonstr (W f) (get_schema sch sc [Some (Map tk); Some (Map pk)]) None
+                        [Some (Map tk); Some (Map pk')]
+                        (field_names [Some (Map tk); Some (Map pk')]) (Map tk);
+    Ok (Some (mkW d false true)).
+  Proof.
+    intros Hdet. cbn [walk first_kind o_null is_null kind_of all_valid forallb kind_eqb orb andb].
+    unfold walk_map. cbn [v_map merger]. unfold m2_visit_map.
+    cbn [dest_of origin_of o_null is_null tagged_null]. rewrite Hdet.
+    cbn [bind fst snd set_origin sync_from_alias resolve nth_error]. reflexivity.
+  Qed.
+
+  Lemma dlevel_repl f sc tk pk pk' :
+    determine_smp (Some (Map pk)) = Ok (SmpReplace, Some (Map pk')) ->
+    W (S f) sc None [Some (Map tk); Some (Map pk)] =
+    do d <- walk_fields sch nonstr (W f) (get_schema sch sc [Some (Map tk); Some (Map pk)]) (Some 1)
+                        [Some (Map tk); Some (Map pk')]
+                        (field_names [Some (Map pk'); Some (Map pk')]) (Map pk');
+    Ok (Some (mkW d false false)).
+  Proof.
+    intros Hdet. cbn [walk first_kind o_null is_null kind_of all_valid forallb kind_eqb orb andb].
+    unfold walk_map. cbn [v_map merger]. unfold m2_visit_map.
+    cbn [dest_of origin_of o_null is_null tagged_null]. rewrite Hdet.
+    cbn [bind fst snd set_origin sync_from_alias resolve nth_error]. reflexivity.
+  Qed.
+
+  Lemma dlevel_add f sc tv pk ps pk' :
+    o_null tv = true ->
+    determine_smp (Some (Map pk)) = Ok (ps, Some (Map pk')) -> ps = SmpMerge \/ ps = SmpReplace ->
+    W (S f) sc None [tv; Some (Map pk)] =
+    do d <- walk_fields sch nonstr (W f) (get_schema sch sc [tv; Some (Map pk)]) (Some 1) [tv; Some (Map pk')]
+                        (field_names [Some (Map pk'); Some (Map pk')]) (Map pk');
+    Ok (Some (mkW d false false)).
+  Proof.
+    intros Hn Hdet Hps. cbn [walk].
+    assert (Hk : first_kind [tv; Some (Map pk)] = Some KMap).
+    { cbn [first_kind]. rewrite Hn. reflexivity. }
+    rewrite Hk.
+    assert (Hv : all_valid KMap [tv; Some (Map pk)] = true).
+    { cbn. destruct tv as [t|]; cbn in *; auto. rewrite Hn. reflexivity. }
+    rewrite Hv. unfold walk_map. cbn [v_map merger]. unfold m2_visit_map. cbn [dest_of origin_of]. rewrite Hn.
+    rewrite Hdet.
+    destruct tv as [[t s v| |]|]; cbn in Hn; try discriminate; destruct Hps as [-> | ->]; cbn; reflexivity.
+  Qed.
+
+  Lemma dlevel_dup f sc pk ps pk' :
+    determine_smp (Some (Map pk)) = Ok (ps, Some (Map pk')) -> ps = SmpMerge \/ ps = SmpReplace ->
+    W (S f) sc (Some 1) [Some (Map pk); Some (Map pk)] =
+    do d <- walk_fields sch nonstr (W f) (get_schema sch sc [Some (Map pk); Some (Map pk)]) (Some 1)
+                        [Some (Map pk'); Some (Map pk')]
+                        (field_names [Some (Map pk'); Some (Map pk')]) (Map pk');
+    Ok (Some (mkW d false true)).
+  Proof.
+    intros Hdet Hps. cbn [walk first_kind o_null is_null kind_of all_valid forallb kind_eqb orb andb].
+    unfold walk_map. cbn [v_map merger]. unfold m2_visit_map.
+    cbn [dest_of origin_of o_null is_null tagged_null]. rewrite Hdet.
+    destruct Hps as [-> | ->]; cbn; reflexivity.
   Qed.
 
   (* ---- what a second application has to show ---- *)
@@ -338,27 +529,20 @@ Section Idem.
   Lemma struct_core f sc0 alias' srcs d0 names pv d :
     (forall sc alias tv pv r,
         W f sc alias [tv; pv] = Ok r -> aliasing alias tv pv ->
-        ofrag wfk tv = true -> ofrag wfk pv = true -> ofrag nodir pv = true ->
+        ofrag wfk tv = true -> ofrag wfk pv = true -> ofrag dirok pv = true ->
         second_ok (fval nonstr r tv) pv) ->
-    NoDup names -> wfk (Map d0) = true ->
-    plain_patch pv -> ofrag wfk pv = true -> ofrag nodir pv = true ->
+    NoDup names -> nodupk d0 -> (forall k, ofrag wfk (find_field k d0) = true) ->
+    plain_patch pv ->
+    (forall k, ofrag wfk (field_of k pv) = true /\ ofrag dirok (field_of k pv) = true) ->
     (forall k, fvs alias' srcs k (find_field k d0) = [find_field k d0; field_of k pv] /\
                aliasing alias' (find_field k d0) (field_of k pv)) ->
     (forall k, In k (keys d0) \/ field_of k pv <> None -> In k names) ->
     walk_fields sch nonstr (W f) sc0 alias' srcs names (Map d0) = Ok d ->
     exists kvs', d = Map kvs' /\ second_ok (Some (Map kvs')) pv.
   Proof.
-    intros IH Hnd Hwf Hplain Hwp Hnp Hfv Hnames Hw.
-    destruct (wfk_map _ Hwf) as [Hnk Hsub].
+    intros IH Hnd Hnk Hsub Hplain Hpsub Hfv Hnames Hw.
     destruct (walk_fields_map sch nonstr _ _ _ _ names Hnd _ _ Hnk Hw) as [kvs' [-> [Hnk' [Hout Hin]]]].
     exists kvs'. split; auto.
-    (* the fields of the patch *)
-    assert (Hpsub : forall k, ofrag wfk (field_of k pv) = true /\ ofrag nodir (field_of k pv) = true).
-    { intros k. destruct pv as [[| pk |]|]; cbn [field_of]; try (split; reflexivity).
-      cbn [ofrag] in Hwp, Hnp. destruct (wfk_map _ Hwp) as [_ H1].
-      assert (Hnd0 : is_delete pk = false) by (unfold is_delete; cbn in Hplain; rewrite Hplain; reflexivity).
-      destruct (nodir_map _ Hnp Hnd0) as [_ H2].
-      split; apply ofrag_field; auto. }
     (* every walked key: the second walk of that key is a fixpoint *)
     assert (Hkeys : forall k, In k names ->
               exists g r', (forall sc' g', g <= g' -> W g' sc' None [find_field k kvs'; field_of k pv] = Ok r') /\
@@ -366,7 +550,7 @@ Section Idem.
     { intros k Hk. destruct (Hin k Hk) as [r [Hr Hf]].
       destruct (Hfv k) as [Efv Hal]. rewrite Efv in Hr.
       destruct (Hpsub k) as [Hp1 Hp2].
-      assert (Ht : ofrag wfk (find_field k d0) = true) by (apply ofrag_field; auto).
+      pose proof (Hsub k) as Ht.
       destruct (IH _ _ _ _ _ Hr Hal Ht Hp1 Hp2) as [g [r' [H1 H2]]].
       rewrite <- Hf in H1, H2. exists g, r'. split; auto. }
     (* names of the second run are among the first run's *)
@@ -403,10 +587,58 @@ Section Idem.
       destruct (field_of_in _ _ _ F) as [pk [-> Hk]]. exists pk. split; [right; left; auto|auto].
   Qed.
 
+  (* ---- from the elided mapping back to the mapping with its directive ---- *)
+  Lemma second_merge_dir kvs' pk pk' :
+    determine_smp (Some (Map pk)) = Ok (SmpMerge, Some (Map pk')) -> find_field smp_key pk' = None ->
+    second_ok (Some (Map kvs')) (Some (Map pk')) -> second_ok (Some (Map kvs')) (Some (Map pk)).
+  Proof.
+    intros Hdet Hpp [g [r' [H1 H2]]]. exists (S g), r'. split; auto.
+    intros sc' g' Hg. destruct g' as [|g2]; [lia|].
+    rewrite (dlevel_merge g2 sc' kvs' pk pk' Hdet).
+    assert (Hg2 : g <= S g2) by lia. specialize (H1 sc' (S g2) Hg2).
+    rewrite level_merge in H1 by exact Hpp.
+    rewrite (walk_fields_sc (W g2) _ (get_schema sch sc' [Some (Map kvs'); Some (Map pk')]))
+      by (intros; apply walk_sc).
+    exact H1.
+  Qed.
+
+  Lemma wf_alias1 (rec : @rec_t Sc) sc a b a' b' :
+    forall names d, walk_fields sch nonstr rec sc (Some 1) [a; b] names d =
+                    walk_fields sch nonstr rec sc (Some 1) [a'; b'] names d.
+  Proof.
+    induction names as [|key rest IH]; intros d; cbn [walk_fields]; auto.
+    change (cur_srcs (Some 1) d [a; b]) with [Some d; Some d].
+    change (cur_srcs (Some 1) d [a'; b']) with [Some d; Some d].
+    destruct (rec _ _ _) as [r| | |]; cbn [bind]; auto.
+    destruct (set_field_w nonstr key r d) as [d'| | |]; cbn [bind]; auto.
+  Qed.
+
+  Lemma walk_le f g : f <= g -> rec_le (W f) (W g).
+  Proof.
+    intros Hfg sc a ss x H Hx. replace g with ((g - f) + f) by lia. apply walk_mono; auto.
+  Qed.
+
+  (* "$patch: replace" gives the walked patch mapping, whatever the target holds *)
+  Lemma second_replace f sc0 a b pk pk' kvs' :
+    determine_smp (Some (Map pk)) = Ok (SmpReplace, Some (Map pk')) ->
+    walk_fields sch nonstr (W f) sc0 (Some 1) [a; b] (field_names [Some (Map pk'); Some (Map pk')]) (Map pk')
+    = Ok (Map kvs') ->
+    second_ok (Some (Map kvs')) (Some (Map pk)).
+  Proof.
+    intros Hdet Hw. exists (S f), (Some (mkW (Map kvs') false false)). split; [|reflexivity].
+    intros sc' g' Hg. destruct g' as [|g2]; [lia|].
+    rewrite (dlevel_repl g2 sc' kvs' pk pk' Hdet).
+    rewrite (walk_fields_sc (W g2) _ sc0) by (intros; apply walk_sc).
+    rewrite (wf_alias1 (W g2) sc0 _ _ a b).
+    rewrite (walk_fields_mono sch nonstr (W f) (W g2) sc0 (Some 1) [a; b] (walk_le f g2 ltac:(lia)) _ _ _ Hw)
+      by discriminate.
+    reflexivity.
+  Qed.
+
   (* ---- the induction ---- *)
   Lemma idem_walk f : forall sc alias tv pv r,
       W f sc alias [tv; pv] = Ok r -> aliasing alias tv pv ->
-      ofrag wfk tv = true -> ofrag wfk pv = true -> ofrag nodir pv = true ->
+      ofrag wfk tv = true -> ofrag wfk pv = true -> ofrag dirok pv = true ->
       second_ok (fval nonstr r tv) pv.
   Proof.
     induction f as [|f IH]; intros sc alias tv pv r H Hal Hwt Hwp Hnp; [discriminate|].
@@ -422,51 +654,55 @@ Section Idem.
       destruct (is_delete pk) eqn:Ed.
       { (* "$patch: delete": the target's value goes, and stays gone *)
         rewrite (delete_patch_clears _ _ _ _ _ _ Ha Ed H). apply second_delete_patch; auto. }
-      destruct (nodir_map _ Hnp Ed) as [Hpp _].
-      assert (Hplain : plain_patch (Some (Map pk))) by exact Hpp.
+      destruct (dir_cases pk Hwp Hnp Ed) as [dps [pk' [Hdet [Hps [Hpp [Hnk' Hch]]]]]].
+      assert (Hplain : plain_patch (Some (Map pk'))) by exact Hpp.
+      (* the three ways the patch mapping itself becomes the walked destination *)
+      assert (Hself : forall sc0 a b d,
+                 walk_fields sch nonstr (W f) sc0 (Some 1) [a; b]
+                             (field_names [Some (Map pk'); Some (Map pk')]) (Map pk') = Ok d ->
+                 exists kvs', d = Map kvs' /\ second_ok (Some (Map kvs')) (Some (Map pk))).
+      { intros sc0 a b d Ew. pose proof Ew as Ew0.
+        eapply (struct_core f _ (Some 1) _ pk' _ (Some (Map pk')) d IH) in Ew;
+          [ | apply nodup_sort_uniq | exact Hnk' | intros k; apply Hch | exact Hplain | intros k; apply Hch
+            | intros k; rewrite fvs_alias1; split; [reflexivity|]; right; split; reflexivity
+            | intros k Hk; apply in_names_cover; destruct Hk; auto ].
+        destruct Ew as [kvs' [-> Hs]]. exists kvs'. split; auto.
+        destruct Hps as [-> | ->].
+        - eapply second_merge_dir; eauto.
+        - eapply second_replace; eauto. }
       destruct tv as [[tt ts tx| tk |tes]|].
       + (* scalar target: null -> the patch mapping is added; otherwise a kind error *)
         destruct (is_null (Scalar tt ts tx)) eqn:En.
         2:{ exfalso. destruct tt; try discriminate; destruct Ha as [-> | ->]; cbn in H; discriminate. }
         assert (alias = None) as -> by (destruct Hal as [|[_ E]]; auto; discriminate).
-        rewrite level_add in H by auto.
+        rewrite (dlevel_add f sc _ pk dps pk') in H by auto.
         match type of H with bind ?X _ = _ => destruct X as [d| | |] eqn:Ew; cbn in H; try discriminate end.
-        inv H.
-        eapply (struct_core f _ (Some 1) _ pk _ (Some (Map pk)) d IH) in Ew;
-          [ | apply nodup_sort_uniq | exact Hwp | exact Hplain | exact Hwp | exact Hnp
-            | intros k; rewrite fvs_alias1; split; [reflexivity|]; right; split; reflexivity
-            | intros k Hk; apply in_names_cover; destruct Hk; auto ].
-        destruct Ew as [kvs' [-> Hs]].
+        inv H. destruct (Hself _ _ _ _ Ew) as [kvs' [-> Hs]].
         cbn [fval w_node w_keep w_inplace is_null andb with_style]. destruct tt; try discriminate. exact Hs.
       + (* mapping target *)
         destruct Hal as [-> | [-> E]].
-        * rewrite level_merge in H by auto.
+        * destruct Hps as [-> | ->].
+          -- rewrite (dlevel_merge f sc tk pk pk' Hdet) in H.
+             match type of H with bind ?X _ = _ => destruct X as [d| | |] eqn:Ew; cbn in H; try discriminate end.
+             inv H. destruct (wfk_map _ Hwt) as [Hnkt Hsubt].
+             eapply (struct_core f _ None _ tk _ (Some (Map pk')) d IH) in Ew;
+               [ | apply nodup_sort_uniq | exact Hnkt | intros k; apply ofrag_field; auto | exact Hplain
+                 | intros k; apply Hch
+                 | intros k; rewrite fvs_none; split; [reflexivity|left; reflexivity]
+                 | intros k Hk; apply in_names_cover; auto ].
+             destruct Ew as [kvs' [-> Hs]]. eapply second_merge_dir; eauto.
+          -- rewrite (dlevel_repl f sc tk pk pk' Hdet) in H.
+             match type of H with bind ?X _ = _ => destruct X as [d| | |] eqn:Ew; cbn in H; try discriminate end.
+             inv H. destruct (Hself _ _ _ _ Ew) as [kvs' [-> Hs]]. exact Hs.
+        * inv E. rewrite (dlevel_dup f sc pk dps pk') in H by auto.
           match type of H with bind ?X _ = _ => destruct X as [d| | |] eqn:Ew; cbn in H; try discriminate end.
-          inv H.
-          eapply (struct_core f _ None _ tk _ (Some (Map pk)) d IH) in Ew;
-          [ | apply nodup_sort_uniq | exact Hwt | exact Hplain | exact Hwp | exact Hnp
-            | intros k; rewrite fvs_none; split; [reflexivity|left; reflexivity]
-            | intros k Hk; apply in_names_cover; auto ].
-        destruct Ew as [kvs' [-> Hs]]. exact Hs.
-        * inv E. rewrite level_dup in H by auto.
-          match type of H with bind ?X _ = _ => destruct X as [d| | |] eqn:Ew; cbn in H; try discriminate end.
-          inv H.
-          eapply (struct_core f _ (Some 1) _ pk _ (Some (Map pk)) d IH) in Ew;
-          [ | apply nodup_sort_uniq | exact Hwp | exact Hplain | exact Hwp | exact Hnp
-            | intros k; rewrite fvs_alias1; split; [reflexivity|]; right; split; reflexivity
-            | intros k Hk; apply in_names_cover; destruct Hk; auto ].
-        destruct Ew as [kvs' [-> Hs]]. exact Hs.
+          inv H. destruct (Hself _ _ _ _ Ew) as [kvs' [-> Hs]]. exact Hs.
       + exfalso. destruct Ha as [-> | ->]; cbn in H; discriminate.
       + (* nothing in the target: the patch mapping is added *)
         assert (alias = None) as -> by (destruct Hal as [|[_ E]]; auto; discriminate).
-        rewrite level_add in H by auto.
+        rewrite (dlevel_add f sc _ pk dps pk') in H by auto.
         match type of H with bind ?X _ = _ => destruct X as [d| | |] eqn:Ew; cbn in H; try discriminate end.
-        inv H.
-        eapply (struct_core f _ (Some 1) _ pk _ (Some (Map pk)) d IH) in Ew;
-          [ | apply nodup_sort_uniq | exact Hwp | exact Hplain | exact Hwp | exact Hnp
-            | intros k; rewrite fvs_alias1; split; [reflexivity|]; right; split; reflexivity
-            | intros k Hk; apply in_names_cover; destruct Hk; auto ].
-        destruct Ew as [kvs' [-> Hs]]. exact Hs.
+        inv H. destruct (Hself _ _ _ _ Ew) as [kvs' [-> Hs]]. exact Hs.
     - (* list in the patch *)
       rewrite (seq_patch _ _ _ _ _ _ Ha H). apply second_seq_patch.
     - (* nothing in the patch *)
@@ -477,8 +713,10 @@ Section Idem.
         rewrite level_merge in H by exact I.
         match type of H with bind ?X _ = _ => destruct X as [d| | |] eqn:Ew; cbn in H; try discriminate end.
         inv H.
+        destruct (wfk_map _ Hwt) as [Hnkt Hsubt].
         eapply (struct_core f _ None _ tk _ None d IH) in Ew;
-          [ | apply nodup_sort_uniq | exact Hwt | exact I | exact eq_refl | exact eq_refl
+          [ | apply nodup_sort_uniq | exact Hnkt | intros k; apply ofrag_field; auto | exact I
+            | intros k; split; reflexivity
             | intros k; rewrite fvs_none; split; [reflexivity|left; reflexivity]
             | intros k Hk; apply in_names_cover; auto ].
         destruct Ew as [kvs' [-> Hs]]. exact Hs.
@@ -492,9 +730,21 @@ Section Idem.
 End Idem.
 
 (* ---------- at the level of merge2.Merge ---------- *)
+(* the fragment without "$patch: replace" / "$patch: merge" (the one the reference semantics is stated on) *)
 Definition idem_fragment (p t : node) : bool :=
   is_map p && is_map t && wfk t && wfk p && nodir p &&
   negb (match p with Map pk => is_delete pk | _ => false end).
+(* the fragment of the idempotence law *)
+Definition idem_fragment_dir (p t : node) : bool :=
+  is_map p && is_map t && wfk t && wfk p && dirok p &&
+  negb (match p with Map pk => is_delete pk | _ => false end).
+
+Lemma idem_fragment_dir_of p t : idem_fragment p t = true -> idem_fragment_dir p t = true.
+Proof.
+  unfold idem_fragment, idem_fragment_dir. intros H.
+  repeat rewrite Bool.andb_true_iff in H. destruct H as [[[[[Hmp Hmt] Hwt] Hwp] Hnp] Hdel].
+  rewrite Hmp, Hmt, Hwt, Hwp, Hdel, (nodir_dirok _ Hnp). reflexivity.
+Qed.
 
 Section IdemTop.
   Context {Sc : Type}.
@@ -503,34 +753,50 @@ Section IdemTop.
   Variable nonstr : string -> bool.
   Hypothesis Hatomic : atomic_lists sch opts.
 
-  Theorem merge2_idempotent p t r :
-    idem_fragment p t = true ->
+  Lemma fval_map r' o k : fval nonstr r' (Some o) = Some (Map k) -> option_map w_node r' = Some (Map k).
+  Proof.
+    unfold fval. destruct r' as [w|]; [|discriminate].
+    destruct (is_null (w_node w) && negb (w_keep w)); [discriminate|].
+    cbn [option_map]. destruct (w_node w) as [t s x|kvs|es].
+    - intros H. exfalso. destruct (w_inplace w); inv H.
+      destruct s; try discriminate; destruct t; try discriminate; destruct (nonstr x); discriminate.
+    - destruct (w_inplace w); intros H; inv H; reflexivity.
+    - destruct (w_inplace w); intros H; inv H.
+  Qed.
+
+  Theorem merge2_idempotent_dir p t r :
+    idem_fragment_dir p t = true ->
     merge2 sch opts nonstr (Some p) (Some t) = Ok (Some r) ->
     merge2 sch opts nonstr (Some p) (Some r) = Ok (Some r).
   Proof.
-    unfold idem_fragment. intros Hf H.
+    unfold idem_fragment_dir. intros Hf H.
     repeat rewrite Bool.andb_true_iff in Hf. destruct Hf as [[[[[Hmp Hmt] Hwt] Hwp] Hnp] Hdel].
     destruct p as [| pk |]; try discriminate. destruct t as [| tk |]; try discriminate.
     unfold merge2, walk_top in H.
     destruct (walk sch opts nonstr merger (fuel_of [Some (Map tk); Some (Map pk)]) None None
                 [Some (Map tk); Some (Map pk)]) as [ro| | |] eqn:E; cbn in H; try discriminate.
     apply Bool.negb_true_iff in Hdel.
-    assert (Hpp : plain_patch (Some (Map pk))) by (destruct (nodir_map _ Hnp Hdel); auto).
-    (* the first result is a mapping, updated in place *)
-    unfold fuel_of in E.
-    set (n0 := fold_right (fun (s : option node) (a : nat) => depth_o s + a) 0 [Some (Map tk); Some (Map pk)]) in E.
-    rewrite (level_merge sch opts nonstr) in E by auto.
-    match type of E with bind ?X _ = _ => destruct X as [d| | |] eqn:Ew; cbn [bind] in E; try discriminate end.
-    inv E. cbn in H. inv H.
-    pose proof Ew as Ew0.
+    destruct (dir_cases pk Hwp Hnp Hdel) as [dps [pk' [Hdet [Hps [Hpp [Hnk' Hch]]]]]].
     destruct (wfk_map _ Hwt) as [Hnk _].
-    destruct (walk_fields_map sch nonstr _ _ _ _ _ (nodup_sort_uniq _) _ _ Hnk Ew0) as [kvs' [-> _]].
+    (* the first result is a mapping *)
+    assert (Hr : exists kvs', r = Map kvs' /\ fval nonstr ro (Some (Map tk)) = Some (Map kvs')).
+    { unfold fuel_of in E.
+      set (n0 := fold_right (fun (s : option node) (a : nat) => depth_o s + a) 0 [Some (Map tk); Some (Map pk)]) in E.
+      destruct Hps as [-> | ->].
+      - rewrite (dlevel_merge sch opts nonstr n0 None tk pk pk' Hdet) in E.
+        match type of E with bind ?X _ = _ => destruct X as [d| | |] eqn:Ew; cbn [bind] in E; try discriminate end.
+        inv E. cbn in H. inv H.
+        destruct (walk_fields_map sch nonstr _ _ _ _ _ (nodup_sort_uniq _) _ _ Hnk Ew) as [kvs' [-> _]].
+        exists kvs'. split; reflexivity.
+      - rewrite (dlevel_repl sch opts nonstr n0 None tk pk pk' Hdet) in E.
+        match type of E with bind ?X _ = _ => destruct X as [d| | |] eqn:Ew; cbn [bind] in E; try discriminate end.
+        inv E. cbn in H. inv H.
+        destruct (walk_fields_map sch nonstr _ _ _ _ _ (nodup_sort_uniq _) _ _ Hnk' Ew) as [kvs' [-> _]].
+        exists kvs'. split; reflexivity. }
+    destruct Hr as [kvs' [-> Hfv]].
     (* idempotence of the walk *)
     assert (Hs : second_ok sch opts nonstr (Some (Map kvs')) (Some (Map pk))).
-    { pose proof (idem_walk sch opts nonstr Hatomic (S n0) None None
-                    (Some (Map tk)) (Some (Map pk)) (Some (mkW (Map kvs') false true))) as Hi.
-      rewrite (level_merge sch opts nonstr) in Hi by auto. rewrite Ew in Hi. cbn [bind] in Hi.
-      apply Hi; auto. left; reflexivity. }
+    { rewrite <- Hfv. eapply (idem_walk sch opts nonstr Hatomic); eauto. left; reflexivity. }
     destruct Hs as [g [r' [Hst Hfx]]].
     (* bring it to the canonical fuel *)
     unfold merge2, walk_top.
@@ -540,17 +806,14 @@ Section IdemTop.
       { unfold c, fuel_of. apply walk_enough; [apply merger_ok|]. apply (bounded_fuel [Some (Map kvs'); Some (Map pk)]). }
       pose proof (walk_mono sch opts nonstr merger c g None None _ _ eq_refl Hnd) as Hm.
       rewrite Hst in Hm by lia. auto. }
-    rewrite Hc. cbn [bind].
-    (* the second result is that mapping *)
-    unfold c, fuel_of in Hc. rewrite (level_merge sch opts nonstr) in Hc by auto.
-    match type of Hc with bind ?X _ = _ => destruct X as [d2| | |] eqn:Ew2; cbn in Hc; try discriminate end.
-    inv Hc. cbn in Hfx |- *.
-    destruct d2 as [t2 s2 x2| |]; cbn in Hfx.
-    - destruct t2; cbn in Hfx; try discriminate; destruct s2; try discriminate;
-        try (destruct (nonstr x2); discriminate).
-    - inv Hfx. reflexivity.
-    - inv Hfx.
+    rewrite Hc. cbn [bind]. rewrite (fval_map _ _ _ Hfx). reflexivity.
   Qed.
+
+  Theorem merge2_idempotent p t r :
+    idem_fragment p t = true ->
+    merge2 sch opts nonstr (Some p) (Some t) = Ok (Some r) ->
+    merge2 sch opts nonstr (Some p) (Some r) = Ok (Some r).
+  Proof. intros Hf. apply merge2_idempotent_dir. apply idem_fragment_dir_of; auto. Qed.
 End IdemTop.
 
 (* non-vacuity: a nested patch with a null, an added mapping (with a null inside), a replaced list and a
@@ -572,3 +835,23 @@ Example idem_example :
             node_eqb r idem_t = false /\
             merge2 schemaless kustomize_opts (fun s => String.eqb s "no") (Some idem_p) (Some r) = Ok (Some r).
 Proof. split; [reflexivity|]. eexists. split; [vm_compute; reflexivity|]. split; vm_compute; reflexivity. Qed.
+
+(* non-vacuity for the directives: "$patch: replace" on a present and on an absent mapping (with a nested null and a
+   nested "$patch: delete"), "$patch: merge" on a present mapping, at the root as well *)
+Definition idem_dir_t : node :=
+  Map [("kind", Scalar TStr SPlain "Foo");
+       ("spec", Map [("m", Map [("x", Scalar TInt SPlain "1"); ("y", Scalar TInt SPlain "2")]);
+                     ("g", Map [("u", Scalar TInt SPlain "1"); ("v", Scalar TStr SPlain "no")])])].
+Definition idem_dir_p : node :=
+  Map [("$patch", Scalar TStr SPlain "merge");
+       ("spec", Map [("m", Map [("$patch", Scalar TStr SPlain "replace"); ("x", Scalar TStr SDouble "7");
+                                ("z", Scalar TNull SPlain "null");
+                                ("w", Map [("$patch", Scalar TStr SPlain "delete")])]);
+                     ("n", Map [("$patch", Scalar TStr SPlain "replace"); ("k", Scalar TBool SPlain "true")]);
+                     ("g", Map [("$patch", Scalar TStr SPlain "merge"); ("u", Scalar TInt SPlain "5")])])].
+Example idem_dir_example :
+  idem_fragment_dir idem_dir_p idem_dir_t = true /\ idem_fragment idem_dir_p idem_dir_t = false /\
+  exists r, merge2 schemaless kustomize_opts (fun s => String.eqb s "no") (Some idem_dir_p) (Some idem_dir_t) = Ok (Some r) /\
+            node_eqb r idem_dir_t = false /\
+            merge2 schemaless kustomize_opts (fun s => String.eqb s "no") (Some idem_dir_p) (Some r) = Ok (Some r).
+Proof. split; [reflexivity|]. split; [reflexivity|]. eexists. split; [vm_compute; reflexivity|]. split; vm_compute; reflexivity. Qed.
